@@ -24,7 +24,7 @@ IN_DTYPES = ["int8", "int16", "int32", "int64", "uint8", "uint16", "uint32",
              "uint64", "float32", "float64"]
 OUT_TYPES = ["uint8", "uint16", "uint32", "uint64", "float32"]
 FORMS = ["contig", "strided", "fortran2d", "transposed", "readonly", "moved4d",
-         "readonly_strided", "bigendian"]
+         "readonly_strided", "bigendian", "alias_type"]
 F32_MAX = float(np.finfo(np.float32).max)
 
 
@@ -127,6 +127,15 @@ def build(case):
     if form == "readonly":
         a.setflags(write=False)
         return a
+    if form == "alias_type":
+        # the C-type spelling of the same type ('q' = long long for int64,
+        # 'Q', 'i', ...: what array.array, ctypes, Cython memoryviews and
+        # some readers produce); on Linux long long and long are distinct
+        # NumPy type objects of equal width
+        return a.astype(np.dtype({
+            "int8": "b", "uint8": "B", "int16": "h", "uint16": "H",
+            "int32": "i", "uint32": "I", "int64": "q", "uint64": "Q",
+            "float32": "f", "float64": "d"}[case["in"]]))
     if form == "bigendian":
         # data of a big-endian file, as the image library hands it over
         return a.astype(dt.newbyteorder(">"))
@@ -148,7 +157,8 @@ def check_case(ctx, case):
     before = arr.tobytes()
     # callers build the transformer from the dtype of the array they hold
     t = get_chunk_dtype_transformer(
-        arr.dtype if case["form"] == "bigendian" else in_dtype, out,
+        arr.dtype if case["form"] in ("bigendian", "alias_type")
+        else in_dtype, out,
         warn=False)
     try:
         with np.errstate(all="ignore"):
